@@ -554,9 +554,20 @@ pub fn shrink(
     let mut improved = true;
     while improved && evals < max_evals {
         improved = false;
-        // 1. delete blocks
-        let mut size = (best.len() / 2).max(1);
-        while size >= 1 {
+        // 1. delete blocks (halving sizes first, then every small size: list elements
+        //    usually span 2..8 draws)
+        let mut sizes: Vec<usize> = vec![];
+        let mut sz = (best.len() / 2).max(1);
+        while sz > 8 {
+            sizes.push(sz);
+            sz /= 2;
+        }
+        for k in (1..=8usize).rev() {
+            if k <= best.len() {
+                sizes.push(k);
+            }
+        }
+        for size in sizes {
             let mut i = 0;
             while i + size <= best.len() {
                 let mut cand = best.clone();
@@ -570,10 +581,9 @@ pub fn shrink(
                     break;
                 }
             }
-            if size == 1 || evals >= max_evals {
+            if evals >= max_evals {
                 break;
             }
-            size /= 2;
         }
         // 2. zero blocks
         let mut size = (best.len() / 2).max(1);
